@@ -2,21 +2,21 @@
 """Regenerates /verif/MANIFEST.json (kept under version control; edit here, not by hand)."""
 import json
 P = {
- "C01": ("other", "request layouts vs protocol table + path-sensitive argument->offset wiring extraction (go/ssa abstract interpretation over comparison regions) + per-kind encoder extents/byte order", "3 C01"),
+ "C01": ("other", "request layouts vs protocol table + path-sensitive argument->offset wiring extraction (go/ssa abstract interpretation over comparison regions) + per-kind encoder extents/byte order + zero-test/zone lints of the date encoders", "3 C01"),
  "C02": ("other", "reply layouts vs protocol table + path-sensitive reply->result and sentinel decision-table extraction + decoder domain rules", "3 C02"),
  "C03": ("other", "path enumeration of the send helper, broadcast filter and receive loop: decode only under len==64 and serial match; header guards of decoder and dispatchers", "3 C03"),
- "C04": ("other", "closed inventory of panic-capable SSA instructions, each discharged by a bound/guard rule; compiler bounds-check list as cross-reference (thorough)", "3 C04"),
+ "C04": ("other", "closed inventory of panic-capable SSA instructions, each discharged by a bound/guard rule; listener shutdown-order path rule (no send on a closed pipe); compiler bounds-check list as cross-reference (thorough)", "3 C04"),
  "C05": ("other", "per-kind encoder/decoder agreement facts + layout disjointness arithmetic + dispatcher table extraction", "3 C05"),
  "C06": ("other", "routing decision table by path enumeration of the send helper + static call-graph reachability to the transport seam", "3 C06"),
  "C07": ("other", "rejection decision tables by path enumeration with interval refinement, compared with the contract on the union of cut points", "3 C07"),
  "C08": ("other", "goroutine-captured-variable discipline (mutex / atomic / channel), connection escape, lock and deadline ordering on enumerated paths", "3 C08"),
  "C09": ("other", "typestate on enumerated paths: open->close pairing, deadline-before-read with value shape (one clock reading for a TCP connect and its exchange), reader-goroutine exit on and only on a failed read, lock pairing", "3 C09"),
  "C10": ("other", "listener handler/consumer/shutdown path enumeration + sibling agreement with GetStatus + aliasing rule for the reused buffer", "3 C10"),
- "C11": ("other", "broadcast helper enumerated over accept/reject patterns of 3 replies + GetDevices result wiring for 0/1/2 replies", "3 C11"),
+ "C11": ("other", "broadcast helper enumerated over accept/reject patterns of 3 replies + GetDevices result wiring for 0/1/2 replies + reader-goroutine hand-over rules + protocol-id decision table of the decoder", "3 C11"),
  "C12": ("other", "abstract interpretation of Encode/Decode for one symbol with exact value-set refinement (finite powerset domain: all 256 byte values, all rune regions cut by the code's comparisons); emitted nibble/characters tabulated as expressions of the symbol; no package-level state in the bcd package", "3 C12"),
  "C13": ("other", "zone/layout dataflow lints over every civil construction and parse; local-midnight re-check rule", "3 C13"),
- "C14": ("other", "writer/reader constant agreement by context-sensitive constant flow, reader/writer maps compared per value, nil-map establishment and receiver-map dataflow, HH:mm domain regions", "3 C14"),
- "C15": ("other", "port-rule decision tables per role + regular-language inclusion on the constant patterns' automata", "3 C15"),
+ "C14": ("other", "writer/reader constant agreement by context-sensitive constant flow, reader/writer maps compared per value, nil-map establishment and receiver-map dataflow, HH:mm domain regions, zone lints of the JSON date decoders", "3 C14"),
+ "C15": ("other", "port-rule decision tables per role + regular-language inclusion on the constant patterns' automata + length argument for rejections no recogniser explains", "3 C15"),
  "C16": ("proof", "exhaustive evaluation of the comparison functions over the finite sign-vector domain extracted from go/ssa, compared with the lexicographic order", "3 C16"),
  "C17": ("other", "ownership lints: constructor-only writes, fresh allocation in Clone/DeviceList, no stores through arguments (callee summaries for functions not walked in line), no buffer views in decoded values, the datagram never leaves the listener's handler", "3 C17"),
  "C18": ("other", "per-kind walk of the codec's two reflection loops for one generic field (helpers and dispatch tables inlined): extents, aliasing, error propagation, tag base and tag grammar over all byte literals, kind symmetry, no silently skipped field, value tags honoured for every constant, panic inventory of the codec package (linear bound domain)", "3 C18"),
